@@ -126,7 +126,7 @@ def reject_frame_monitor(ctx, tr, ix):
     rp = monitors.replay_of(tr)
     rejects = collections_counter(tr)
     for c in tr.calls:
-        if c["api"] in ("deposit", "withdraw", "finance", "repay", "cancel_order", "combo_buy_rest_sell", "combo_future_close", "combo_auction_two_fill", "combo_auction_cancel", "plan_future_open", "plan_future_split_close", "plan_future_generic_close", "plan_cash_edge"):
+        if c["api"] in ("deposit", "withdraw", "finance", "repay", "cancel_order", "combo_buy_rest_sell", "combo_future_close", "combo_auction_two_fill", "combo_auction_cancel", "plan_future_open", "plan_future_split_close", "plan_future_generic_close", "plan_cash_edge", "plan_future_cash_edge"):
             continue
         ctx.evaluations += 1
         accepted = [o for o in c["orders"] if o["status"] != "REJECTED" or o["filled"]]
@@ -256,7 +256,18 @@ def run(ctx):
     corr_m = ctx.corr("malformed calls", "unknown instrument / NaN limit price / non-number amount / forbidden phase: the real API raises a user-facing error and changes nothing (model: such calls have no transition)")
     for _ in range(ctx.n(2, 20)):
         malformed(ctx, corr_m)
-    tstream.stream(ctx, ctx.n(60, 3000), None, [reject_frame_monitor], gen=gen, extra_sync=lambda c, tr, ix: chain_sync(c, corr, tr, ix))
+    def position_rules(c, tr, ix):
+        """the position validator's purpose, checked on the outcome: no quantity below zero, no sale of shares bought today (T+1) — the C10 monitor under this property's clause"""
+        orig = c.witness
+
+        def w(clause, sig, what, rp_):
+            return orig("C16.1", dict(sig, rule=clause), what, rp_)
+        c.witness = w
+        try:
+            monitors.c10_monitor(c, tr, ix)
+        finally:
+            c.witness = orig
+    tstream.stream(ctx, ctx.n(60, 3000), None, [reject_frame_monitor, position_rules], gen=gen, extra_sync=lambda c, tr, ix: chain_sync(c, corr, tr, ix))
 
 
 def replay(ctx, data):
